@@ -52,6 +52,16 @@ class Problem:
         assert v == int(v), f'score {x} is off the grid'
         return int(v)
 
+    def to_json(self):
+        d = {'tag': self.tag.tolist(), 'dep': self.dep.tolist(), 'roots': self.roots, 'pen8': self.pen8, 'pruning': self.pruning,
+             'use_beta': self.use_beta, 'theta_odd': self.theta_odd, 'nbest': self.nbest, 'max_step': self.max_step}
+        if hasattr(self, 'grammar'):
+            d['real'] = self.grammar.lang
+        else:
+            d['binary'] = [[x, y, [[c, h] for c, h in rs]] for (x, y), rs in self.binary.items()]
+            d['unary'] = [[x, list(rs)] for x, rs in self.unary.items()]
+        return d
+
     def gallina(self):
         rows = lambda m: '[' + ';'.join('[' + ';'.join(gZ(self.z(v)) for v in r) + ']' for r in m) + ']'
         bt = '[' + ';'.join(f'({gnat(x)},{gnat(y)},[' + ';'.join(f'({gnat(c)},{gbool(h)})' for c, h in rs) + '])' for (x, y), rs in sorted(self.binary.items())) + ']'
